@@ -1181,6 +1181,9 @@ Fixpoint eval (fuel : nat) (e : expr) (ro : bool) (vs : vars) (ctx : list ptr) (
                                                      | Scalar _ v => v
                                                      | _ => []
                                                      end) items in
+                    (* a container item contributes its Value field: empty when decoded, "{}" / "[]" when it came
+                       from an empty literal -- not part of the node model *)
+                    if existsb (fun it => match snd it with Scalar _ _ => false | _ => true end) items then Unsup else
                     one (alloc_repl st0 c (Scalar TStr (join_strs sep texts)))
                 | _ => Err
                 end) ctx (snd o)
